@@ -11,7 +11,7 @@ SPEC_KEYS = {"flow_rates", "comp_rates"}
 def run(tier, seed):
     n = tier_n(tier, 260, 4000)
     g = gen.Gen(seed * 7919 + 1)
-    progs = [g.program() for _ in range(n)]
+    progs = [g.program({"signed": 0.2}) for _ in range(n)]
     out = []
     for p, st in with_struct(progs):
         if st is None:
@@ -37,7 +37,7 @@ def run(tier, seed):
             if any(any(v not in ("0/1",) for v in o["flow_rates"]) for o in rates):
                 nontrivial.add(checklib.signature(p))
     return {"programs": out, "explore": ex, "distinct_nontrivial": len(nontrivial),
-            "rule": "structured random build programs (flow kinds x stratification kinds x adjustments x filters x "
+            "rule": "structured random build programs (20%% of the flows with negative / sign-changing rates; flow kinds x stratification kinds x adjustments x filters x "
                     "mixing x order, DESIGN 4.2), each observed with one_step at %d (params, t, x) points incl. zero and "
                     "slightly negative entries; non-trivial = builds on the model side and has a non-zero flow rate; "
                     "distinct by SHA-256 of the program" % (2 if tier == "quick" else 4),
